@@ -66,6 +66,15 @@ def project_construct(label):
     return {"pc": v("pc"), "rs": v("rs"), "table": v("table") == "TRUE", "count": int(v("count") or 0), "conn": int(v("conn") or 0),
             "nclose": int(v("nclose") or 0), "trs": v("trs")}
 
+# ---- Upgrade.tla: flags, current transport, one state per candidate (a function printed as a record)
+def project_upgrade(label):
+    def v(name):
+        m = re.search(r'/\\ ' + name + r' = ("?)([^ "/]*)\1', label)
+        return m.group(2) if m else ""
+    pc = rec_of(label, "pc")
+    return {"upgrading": v("upgrading") == "TRUE", "upgraded": v("upgraded") == "TRUE", "tr": "polling" if v("cur") == "p" else "stream",
+            "nswitch": int(v("nswitch") or 0), "closed": {k: x in ("refused", "closed", "failed") for k, x in pc.items() if x != "none"}}
+
 def main():
     global project
     dot, out = sys.argv[1], sys.argv[2]
@@ -78,6 +87,9 @@ def main():
     if construct:
         project = project_construct
         registry = True          # (same label syntax: hist is one conjunct among others, nothing is skipped)
+    if len(sys.argv) > 5 and sys.argv[5] == "upgrade":
+        project = project_upgrade
+        registry = True
     node_re = re.compile(r'^(-?\d+) \[label="((?:[^"\\]|\\.)*)"')
     edge_re = re.compile(r'^(-?\d+) -> (-?\d+) \[label=')
     act, proj, succ, init = {}, {}, collections.defaultdict(list), None
